@@ -170,3 +170,391 @@ Proof.
   intros P s. unfold render, cstring_of_struct, tree_of_struct, str_atoms. cbn [c_comp c_density].
   rewrite sapp_nil_r, r_comp_chunk. exact (toks_render P (FGroup s)).
 Qed.
+
+(* ---------------------------------------------------------------- printable structures *)
+(* a count is either 1 (not written) or its printed text is a count of the grammar *)
+Definition count_ok (c : Q) : bool := (Qeq_bool c 1 || is_count_text (fmt_count (round64 c)))%bool.
+
+(* the table names the atom: its symbol is known and stands for this element (D, T: this isotope),
+   a written isotope number is a defined isotope, a written charge is a listed charge *)
+Definition atom_ok (P : penv) (T : ptable) (a : atom) : bool :=
+  (is_symbol (p_sym P a) &&
+   match t_symbol T (p_sym P a) with
+   | Some (z, a0) => (Z.eqb z (az a) && Z.eqb a0 (if is_named_isotope a then aa a else 0))%bool
+   | None => false
+   end &&
+   Z.leb 0 (aa a) &&
+   (if iso_shown a then t_has_iso T (az a) (aa a) else true) &&
+   (if Z.eqb (aq a) 0 then true else t_has_ion T (az a) (aq a)))%bool.
+
+Fixpoint printable_frag (P : penv) (T : ptable) (f : frag) : bool :=
+  match f with
+  | FAtom a => atom_ok P T a
+  | FGroup l =>
+      (negb (match l with [] => true | _ => false end) &&
+       (fix go (l : list (Q * frag)) : bool :=
+          match l with
+          | [] => true
+          | (c, f') :: r => (count_ok c && printable_frag P T f' && go r)%bool
+          end) l)%bool
+  end.
+Definition printable (P : penv) (T : ptable) (s : struct) : bool := printable_frag P T (FGroup s).
+
+Definition items_ok (P : penv) (T : ptable) : list (Q * frag) -> bool :=
+  fix go (l : list (Q * frag)) : bool :=
+    match l with
+    | [] => true
+    | (c, f') :: r => (count_ok c && printable_frag P T f' && go r)%bool
+    end.
+Lemma printable_group : forall P T l,
+  printable_frag P T (FGroup l) = (negb (match l with [] => true | _ => false end) && items_ok P T l)%bool.
+Proof. reflexivity. Qed.
+Lemma items_ok_cons : forall P T c f r,
+  items_ok P T ((c, f) :: r) = (count_ok c && printable_frag P T f && items_ok P T r)%bool.
+Proof. reflexivity. Qed.
+
+(* how many cases of a C13 run the round-trip theorem applies to *)
+Definition printable_all (cases : list c13case) : N :=
+  N.of_nat (length (filter (fun c => printable the_penv the_ptable (r_struct c)) cases)).
+
+(* ---------------------------------------------------------------- one atom item *)
+Lemma ion_facts : forall q, q <> 0%Z ->
+  is_ion_digits (ion_digits q) = true /\ ion_mag (ion_digits q) = Some (Z.abs q) /\
+  (if negb (0 <? q)%Z then (- Z.abs q)%Z else Z.abs q) = q.
+Proof.
+  intros q Hq. unfold ion_digits. destruct (1 <? Z.abs q)%Z eqn:E.
+  - apply Z.ltb_lt in E. destruct (Z_to_string_pos (Z.abs q) ltac:(lia)) as [W V].
+    split; [unfold is_ion_digits; rewrite W; apply orb_true_r|]. split.
+    + unfold ion_mag. destruct (Z_to_string (Z.abs q)) eqn:Es; [discriminate|]. simpl. exact V.
+    + destruct (0 <? q)%Z eqn:E0; simpl; [apply Z.ltb_lt in E0|apply Z.ltb_ge in E0]; lia.
+  - apply Z.ltb_ge in E. split; [reflexivity|]. split.
+    + unfold ion_mag. simpl. f_equal. lia.
+    + destruct (0 <? q)%Z eqn:E0; simpl; [apply Z.ltb_lt in E0|apply Z.ltb_ge in E0]; lia.
+Qed.
+
+Lemma cv_round6 : forall c, count_ok c = true ->
+  cv (if Qeq_bool c 1 then None else Some (fmt_count (round64 c))) = round6 c.
+Proof.
+  intros c H. unfold count_ok in H. destruct (Qeq_bool c 1) eqn:E.
+  - apply Qeq_bool_iff in E. rewrite (round6_one c E). reflexivity.
+  - simpl in H. destruct (parse_dec_count _ H) as (q & Hq). unfold cv, round6. simpl. rewrite Hq. reflexivity.
+Qed.
+
+Lemma elem_of_ok : forall P T a c, atom_ok P T a = true -> count_ok c = true ->
+  wf_elem T (elem_of P a c) = true /\ v_elem T (elem_of P a c) = (round6 c, FAtom a).
+Proof.
+  intros P T [z A q] c H Hc. unfold atom_ok in H. cbn [az aa aq] in H.
+  apply andb_prop in H. destruct H as [H Hion]. apply andb_prop in H. destruct H as [H Hiso].
+  apply andb_prop in H. destruct H as [H HA]. apply andb_prop in H. destruct H as [Hs Hsym].
+  apply Z.leb_le in HA.
+  destruct (t_symbol T (p_sym P (mkAtom z A q))) as [[z' a0]|] eqn:Ez; [|discriminate].
+  apply andb_prop in Hsym. destruct Hsym as [Hz Ha0]. apply Z.eqb_eq in Hz, Ha0. subst z'.
+  assert (Hct : wf_ctext (if Qeq_bool c 1 then None else Some (fmt_count (round64 c))) = true).
+  { unfold count_ok in Hc. destruct (Qeq_bool c 1); [reflexivity|exact Hc]. }
+  unfold v_elem, wf_elem, elem_atom, elem_of. cbn [el_sym el_iso el_ion el_cnt az aa aq].
+  rewrite Hs, Ez, Hct, (cv_round6 c Hc).
+  (* isotope *)
+  assert (Ei : (match (if iso_shown (mkAtom z A q) then Some (Z_to_string A) else None) with
+                | Some n => (is_whole n && Z.eqb a0 0 &&
+                             match parse_int n with Some v => t_has_iso T z v | None => false end)%bool
+                | None => true end = true) /\
+               match (if iso_shown (mkAtom z A q) then Some (Z_to_string A) else None) with
+               | Some n => match parse_int n with Some v => Some v | None => None end
+               | None => Some a0 end = Some A).
+  { cbn [az aa] in Hiso. unfold iso_shown in *. cbn [aa] in *. destruct (Z.eqb A 0) eqn:EA.
+    - simpl. apply Z.eqb_eq in EA. subst A. split; [reflexivity|].
+      unfold is_named_isotope in Ha0. cbn [az aa] in Ha0. simpl in Ha0. rewrite andb_false_r in Ha0. subst a0. reflexivity.
+    - apply Z.eqb_neq in EA. destruct (is_named_isotope (mkAtom z A q)) eqn:En; simpl.
+      + split; [reflexivity|]. subst a0. reflexivity.
+      + simpl in Hiso. destruct (Z_to_string_pos A ltac:(lia)) as [W V]. rewrite W, V, Hiso. subst a0.
+        split; reflexivity. }
+  destruct Ei as [Ei1 Ei2]. rewrite Ei1, Ei2.
+  (* charge *)
+  cbn [az aq] in Hion. destruct (Z.eqb q 0) eqn:Eq.
+  - apply Z.eqb_eq in Eq. subst q. split; reflexivity.
+  - apply Z.eqb_neq in Eq. destruct (ion_facts q Eq) as (I1 & I2 & I3).
+    rewrite I1. unfold ion_mag in I2. rewrite I2. fold (ion_mag (ion_digits q)).
+    unfold ion_mag. rewrite I2, I3, Hion. split; reflexivity.
+Qed.
+
+(* ---------------------------------------------------------------- tokens: well-formedness and value *)
+Definition tok_wf (T : ptable) (t : token) : bool :=
+  match t with
+  | TAtom e => wf_elem T e
+  | TGrp inner txt => (wf_comp T inner && is_count_text txt)%bool
+  end.
+Definition v_tok (T : ptable) (t : token) : list (Q * frag) :=
+  match t with
+  | TAtom e => [v_elem T e]
+  | TGrp inner txt => regroup (cv (Some txt)) (v_comp T inner)
+  end.
+
+Definition wfg (T : ptable) (p : sep * group) : bool := wf_group T (snd p).
+
+Lemma forallb_cons : forall A (f : A -> bool) x l, forallb f (x :: l) = (f x && forallb f l)%bool.
+Proof. reflexivity. Qed.
+
+Lemma wfg_single : forall T e, wf_elem T e = true -> wfg T (sep0, GImp None [e]) = true.
+Proof. intros T e He. unfold wfg. simpl. rewrite He. reflexivity. Qed.
+
+Lemma wfg_add : forall T e c, wf_elem T e = true -> forallb (wfg T) c = true -> forallb (wfg T) (add_atom e c) = true.
+Proof.
+  intros T e [|[s [[t|] es|l i r cc]] rest] He H; unfold add_atom.
+  - rewrite forallb_cons, (wfg_single T e He). reflexivity.
+  - rewrite forallb_cons, (wfg_single T e He), H. reflexivity.
+  - rewrite forallb_cons in *. apply andb_prop in H. destruct H as [H1 H2]. rewrite H2, andb_true_r.
+    unfold wfg in *. cbn [snd] in *.
+    destruct (wf_imp_inv T _ _ H1) as (_ & e0 & es0 & -> & He0 & Hes0).
+    simpl. rewrite He, He0, Hes0. reflexivity.
+  - rewrite forallb_cons, (wfg_single T e He), H. reflexivity.
+Qed.
+
+Lemma chunk_wfg : forall T ts, forallb (tok_wf T) ts = true -> forallb (wfg T) (chunk ts) = true.
+Proof.
+  intros T. induction ts as [|[e|inner txt] r IH]; intro H; [reflexivity| |];
+    cbn [forallb] in H; apply andb_prop in H; destruct H as [H1 H2]; simpl chunk.
+  - apply wfg_add; [exact H1|exact (IH H2)].
+  - cbn [forallb]. rewrite (IH H2). unfold wfg. cbn [snd]. simpl in H1. apply andb_prop in H1. destruct H1 as [Hw Ht].
+    unfold wf_comp in Hw. apply andb_prop in Hw. destruct Hw as [Hsh Hall].
+    simpl. rewrite Ht, Hsh, Hall. reflexivity.
+Qed.
+
+Lemma join_exp : forall b s l i r c, join_ok b s (GExp l i r c) = true.
+Proof. intros. unfold join_ok. apply orb_true_r. Qed.
+
+(* by construction: nothing needs a separator *)
+Lemma chunk_chain : forall ts, chain_ok false (chunk ts) = true.
+Proof.
+  induction ts as [|[e|inner txt] r IH]; [reflexivity| |].
+  - simpl chunk. pose proof (chunk_plain r) as Hp. destruct (chunk r) as [|[s [[t|] es|l i rr cc]] rest].
+    + reflexivity.
+    + unfold plain in Hp. cbn [forallb] in Hp. unfold plain_entry at 1 in Hp. cbn [snd] in Hp.
+      rewrite andb_false_r in Hp. discriminate.
+    + exact IH.
+    + unfold add_atom. cbn [chain_ok is_imp]. cbn [chain_ok is_imp] in IH. rewrite join_exp in *. exact IH.
+  - simpl chunk. cbn [chain_ok is_imp]. rewrite join_exp, IH. reflexivity.
+Qed.
+
+Lemma chunk_nonempty : forall ts, ts <> [] -> chunk ts <> [].
+Proof.
+  intros [|[e|inner txt] r] H; [congruence| |discriminate].
+  simpl. destruct (chunk r) as [|[s [[t|] es|l i rr cc]] rest]; discriminate.
+Qed.
+
+Lemma chunk_wf : forall T ts, ts <> [] -> forallb (tok_wf T) ts = true -> wf_comp T (chunk ts) = true.
+Proof.
+  intros T ts Hne H. unfold wf_comp. fold (wfg T). rewrite (chunk_wfg T ts H), andb_true_r.
+  pose proof (chunk_chain ts) as Hc. pose proof (chunk_nonempty ts Hne) as Hn.
+  destruct (chunk ts) as [|[s g] l]; [congruence|]. cbn [chain_ok] in Hc.
+  apply andb_prop in Hc. destruct Hc as [_ Hc]. exact Hc.
+Qed.
+
+Lemma v_comp_add : forall T e c, plain c = true -> v_comp T (add_atom e c) = v_elem T e :: v_comp T c.
+Proof.
+  intros T e [|[s [[t|] es|l i r cc]] rest] H; try reflexivity.
+Qed.
+
+Lemma v_comp_chunk : forall T ts, v_comp T (chunk ts) = flat_map (v_tok T) ts.
+Proof.
+  intros T. induction ts as [|[e|inner txt] r IH]; [reflexivity| |].
+  - simpl chunk. rewrite v_comp_add by apply chunk_plain. rewrite IH. reflexivity.
+  - simpl chunk. unfold v_comp in *. simpl flat_map. rewrite IH. reflexivity.
+Qed.
+
+(* ---------------------------------------------------------------- the normal form, without fuel *)
+Fixpoint norm_frag (rnd : Q -> Q) (f : frag) : list (Q * frag) :=
+  match f with
+  | FAtom _ => []
+  | FGroup l =>
+      (fix go (l : list (Q * frag)) : list (Q * frag) :=
+         match l with
+         | [] => []
+         | (c, FAtom a) :: r => (rnd c, FAtom a) :: go r
+         | (c, g) :: r =>
+             ((if Qeq_bool (rnd c) 1 then norm_frag rnd g else [(rnd c, FGroup (norm_frag rnd g))]) ++ go r)%list
+         end) l
+  end.
+
+Lemma norm_atom : forall rnd c a r,
+  norm_frag rnd (FGroup ((c, FAtom a) :: r)) = (rnd c, FAtom a) :: norm_frag rnd (FGroup r).
+Proof. reflexivity. Qed.
+Lemma norm_group : forall rnd c g r,
+  norm_frag rnd (FGroup ((c, FGroup g) :: r)) =
+  ((if Qeq_bool (rnd c) 1 then norm_frag rnd (FGroup g) else [(rnd c, FGroup (norm_frag rnd (FGroup g)))])
+   ++ norm_frag rnd (FGroup r))%list.
+Proof. reflexivity. Qed.
+
+Lemma frag_depth_cons : forall c f r,
+  frag_depth (FGroup ((c, f) :: r)) = S (Nat.max (frag_depth f) (Nat.pred (frag_depth (FGroup r)))).
+Proof. reflexivity. Qed.
+
+(* C13Check.normalize_items with enough fuel is the normal form *)
+Lemma normalize_items_norm : forall rnd fuel l, (frag_depth (FGroup l) <= fuel)%nat ->
+  normalize_items rnd fuel l = norm_frag rnd (FGroup l).
+Proof.
+  intros rnd. induction fuel as [|k IH]; intros l H.
+  - simpl in H. lia.
+  - induction l as [|[c f] r IHr]; [reflexivity|].
+    rewrite frag_depth_cons in H.
+    assert (Hr : (frag_depth (FGroup r) <= S k)%nat) by (simpl in *; lia).
+    change (normalize_items rnd (S k) ((c, f) :: r)) with
+      ((match f with
+        | FAtom a => [(rnd c, FAtom a)]
+        | FGroup g => if Qeq_bool (rnd c) 1 then normalize_items rnd k g
+                      else [(rnd c, FGroup (normalize_items rnd k g))]
+        end) ++ normalize_items rnd (S k) r)%list.
+    rewrite (IHr Hr). destruct f as [a|g].
+    + rewrite norm_atom. reflexivity.
+    + rewrite norm_group. rewrite (IH g) by lia. reflexivity.
+Qed.
+
+Lemma normalize_norm : forall s, normalize s = norm_frag round6 (FGroup s).
+Proof. intro s. unfold normalize. apply normalize_items_norm. lia. Qed.
+
+(* ---------------------------------------------------------------- the tokens of a printable structure *)
+Lemma regroup_norm : forall q inner,
+  regroup q inner = if Qeq_bool q 1 then inner else [(q, FGroup inner)].
+Proof. reflexivity. Qed.
+
+Theorem toks_ok : forall P T f,
+  match f with
+  | FAtom _ => True
+  | FGroup _ =>
+      printable_frag P T f = true ->
+      forallb (tok_wf T) (toks P f) = true /\ toks P f <> [] /\
+      flat_map (v_tok T) (toks P f) = norm_frag round6 f
+  end.
+Proof.
+  intros P T f. induction f as [a|l IH] using frag_ind'; [exact I|].
+  assert (Q : items_ok P T l = true ->
+              forallb (tok_wf T) (toks P (FGroup l)) = true /\ (l <> [] -> toks P (FGroup l) <> []) /\
+              flat_map (v_tok T) (toks P (FGroup l)) = norm_frag round6 (FGroup l)).
+  { induction l as [|[c [a|g]] r IHr]; intro H.
+    - repeat split. congruence.
+    - inversion IH as [|? ? _ Hr]; subst. rewrite items_ok_cons in H.
+      apply andb_prop in H. destruct H as [H Hrest]. apply andb_prop in H. destruct H as [Hc Ha].
+      simpl in Ha. destruct (IHr Hr Hrest) as (W & _ & V). destruct (elem_of_ok P T a c Ha Hc) as [We Ve].
+      rewrite toks_atom, norm_atom. repeat split.
+      + cbn [forallb tok_wf]. rewrite We, W. reflexivity.
+      + discriminate.
+      + cbn [flat_map v_tok]. rewrite Ve, V. reflexivity.
+    - inversion IH as [|? ? Hg Hr]; subst. cbn [snd] in Hg. rewrite items_ok_cons in H.
+      apply andb_prop in H. destruct H as [H Hrest]. apply andb_prop in H. destruct H as [Hc Hpg].
+      destruct (IHr Hr Hrest) as (W & _ & V). destruct (Hg Hpg) as (Wg & Ng & Vg).
+      rewrite toks_group, norm_group. unfold count_ok in Hc. destruct (Qeq_bool c 1) eqn:E.
+      + apply Qeq_bool_iff in E. rewrite (round6_one c E). change (Qeq_bool 1 1) with true. cbv iota.
+        repeat split.
+        * rewrite forallb_app, Wg, W. reflexivity.
+        * intros _ Habs. apply app_eq_nil in Habs. destruct Habs as [Habs _]. exact (Ng Habs).
+        * rewrite flat_map_app, Vg, V. reflexivity.
+      + simpl in Hc. destruct (parse_dec_count _ Hc) as (q & Hq).
+        assert (Er : round6 c = q) by (unfold round6; rewrite Hq; reflexivity).
+        assert (Ev : cv (Some (fmt_count (round64 c))) = q) by (unfold cv; simpl; rewrite Hq; reflexivity).
+        repeat split.
+        * cbn [app forallb tok_wf]. rewrite (chunk_wf T _ Ng Wg), Hc, W. reflexivity.
+        * discriminate.
+        * cbn [app flat_map v_tok]. rewrite v_comp_chunk, Vg, V, Ev, Er, regroup_norm. reflexivity. }
+  intro H. rewrite printable_group in H. apply andb_prop in H. destruct H as [Hne Hit].
+  destruct (Q Hit) as (W & N & V). split; [exact W|]. split; [|exact V].
+  apply N. destruct l; [discriminate|discriminate].
+Qed.
+
+(* 2. printable structures have well-formed trees; the unambiguity conditions hold by construction *)
+Theorem printable_wf : forall P T s, printable P T s = true -> wfb T (cstring_of_struct P s) = true.
+Proof.
+  intros P T s H. destruct (toks_ok P T (FGroup s) H) as (W & N & _).
+  unfold wfb, cstring_of_struct, tree_of_struct. cbn [c_comp c_density].
+  rewrite (chunk_wf T _ N W). reflexivity.
+Qed.
+
+Lemma tree_value : forall P T s, printable P T s = true -> v_comp T (tree_of_struct P s) = normalize s.
+Proof.
+  intros P T s H. destruct (toks_ok P T (FGroup s) H) as (_ & _ & V).
+  unfold tree_of_struct. rewrite v_comp_chunk, V, normalize_norm. reflexivity.
+Qed.
+
+(* 3. print, then parse: the normal form, exactly *)
+Theorem roundtrip : forall P T s, printable P T s = true ->
+  p_compound T (str_atoms P s) = POk (normalize s, DNone) "".
+Proof.
+  intros P T s H. rewrite <- render_tree_of_struct.
+  rewrite (compound_accept T _ (printable_wf P T s H)).
+  unfold cstring_of_struct. cbn [c_comp c_density]. rewrite (tree_value P T s H). reflexivity.
+Qed.
+
+Corollary roundtrip_struct_eqb : forall P T s, printable P T s = true ->
+  exists st, p_compound T (str_atoms P s) = POk (st, DNone) "" /\ st = normalize s.
+Proof. intros P T s H. exists (normalize s). split; [apply roundtrip; exact H|reflexivity]. Qed.
+
+Corollary roundtrip_formula : forall E P T s, printable P T s = true ->
+  parse_compound E T (str_atoms P s) = Some (ROk (new_formula E (normalize s) KTuple None None None)).
+Proof. intros E P T s H. unfold parse_compound. rewrite (roundtrip P T s H). reflexivity. Qed.
+
+(* ---------------------------------------------------------------- atoms are preserved when the printed precision is exact *)
+Fixpoint exact_frag (f : frag) : bool :=
+  match f with
+  | FAtom _ => true
+  | FGroup l =>
+      (fix go (l : list (Q * frag)) : bool :=
+         match l with
+         | [] => true
+         | (c, f') :: r => (Qeq_bool (round6 c) c && exact_frag f' && go r)%bool
+         end) l
+  end.
+(* every count of the structure is its own six-digit rounding *)
+Definition exact_counts (s : struct) : bool := exact_frag (FGroup s).
+
+Lemma exact_cons : forall c f r,
+  exact_frag (FGroup ((c, f) :: r)) = (Qeq_bool (round6 c) c && exact_frag f && exact_frag (FGroup r))%bool.
+Proof. reflexivity. Qed.
+
+Lemma norm_cnt : forall b f, exact_frag f = true ->
+  match f with FAtom _ => True | FGroup _ => (cnt b (FGroup (norm_frag round6 f)) == cnt b f)%Q end.
+Proof.
+  intros b f. induction f as [a|l IH] using frag_ind'; [intros; exact I|].
+  induction l as [|[c [a|g]] r IHr]; intro H.
+  - reflexivity.
+  - inversion IH as [|? ? _ Hr]; subst. rewrite exact_cons in H.
+    apply andb_prop in H. destruct H as [H Hrest]. apply andb_prop in H. destruct H as [Hc _].
+    apply Qeq_bool_iff in Hc. rewrite norm_atom, !cnt_group_cons, (IHr Hr Hrest), Hc. reflexivity.
+  - inversion IH as [|? ? Hg Hr]; subst. cbn [snd] in Hg. rewrite exact_cons in H.
+    apply andb_prop in H. destruct H as [H Hrest]. apply andb_prop in H. destruct H as [Hc Hge].
+    apply Qeq_bool_iff in Hc. rewrite norm_group, cnt_app, (IHr Hr Hrest), cnt_group_cons.
+    specialize (Hg Hge). destruct (Qeq_bool (round6 c) 1) eqn:E.
+    + apply Qeq_bool_iff in E. rewrite Hg. rewrite <- Hc, E. ring.
+    + rewrite cnt_group_cons, cnt_group_nil, Hg, Hc. ring.
+Qed.
+
+Theorem roundtrip_atoms : forall E P T s, printable P T s = true -> exact_counts s = true ->
+  exists f, parse_compound E T (str_atoms P s) = Some (ROk f) /\
+            forall b, (dget0 (f_atoms f) b == dget0 (count_atoms s) b)%Q.
+Proof.
+  intros E P T s H He. eexists. split; [apply roundtrip_formula; exact H|].
+  intro b. unfold f_atoms. change (f_struct (new_formula E (normalize s) KTuple None None None)) with (normalize s).
+  rewrite !count_atoms_spec. unfold cnt_s. rewrite normalize_norm. exact (norm_cnt b (FGroup s) He).
+Qed.
+
+(* 4. repr and named formulas *)
+Lemma repr_shape : forall P f, repr_formula P f = "formula('" ++ str_formula P f ++ "')".
+Proof. reflexivity. Qed.
+Lemma str_named : forall P f n, f_name f = Some n -> n <> "" -> str_formula P f = n.
+Proof.
+  intros P f n H Hn. unfold str_formula. rewrite H. destruct (String.eqb n "") eqn:E; [|reflexivity].
+  apply String.eqb_eq in E. contradiction.
+Qed.
+Lemma str_unnamed : forall P f, f_name f = None \/ f_name f = Some "" -> str_formula P f = str_atoms P (f_struct f).
+Proof. intros P f [H|H]; unfold str_formula; rewrite H; reflexivity. Qed.
+
+(* ---------------------------------------------------------------- an example, so that nothing above is vacuous *)
+Definition ex_struct : struct :=
+  [(1, FAtom (mkAtom 20 0 0));
+   (1, FGroup [(1, FAtom (mkAtom 6 0 0)); (3, FAtom (mkAtom 8 18 0))]);
+   (6, FGroup [(2, FAtom (mkAtom 1 0 0)); (1, FAtom (mkAtom 8 0 0))]);
+   (1 # 2, FAtom (mkAtom 1 2 1));
+   (1234567, FGroup [(1, FGroup [(25 # 10, FAtom (mkAtom 26 56 2))]); (1, FAtom (mkAtom 17 0 (-1)))])]%Q.
+
+Example ex_struct_printable :
+  printable the_penv the_ptable ex_struct = true /\
+  str_atoms the_penv ex_struct = "CaCO[18]3(H2O)6D{+}0.5(Fe[56]{2+}2.5Cl{-})1234570" /\
+  exact_counts ex_struct = false.
+Proof. vm_compute. repeat split. Qed.
